@@ -78,7 +78,11 @@ def oracle_correlation(sched):
     base = {"driver": "TestVerifServerSchedules (newProxy() + scripted agent)", "schedule_index": sched["index"],
             "clients": sched["clients"], "pollers": sched["pollers"]}
     seen_resp = {}
+    # an upload the scripted agent itself gave up on (its own time limit, status -1) excuses the client it was for
+    gave_up = {parse_resp(e.get("resp"))[0] for e in sched["events"] if e["kind"] == "post" and e.get("status") == -1}
     for r in sched["results"]:
+        if r["tok"] in gave_up:
+            continue
         rp = dict(base, client=r, events=[e for e in sched["events"] if e.get("tok") == r["tok"] or (e.get("resp") or "").startswith("R|" + r["tok"] + "|")][:12])
         if r.get("err"):
             if not r.get("canceled"):
@@ -96,6 +100,9 @@ def oracle_correlation(sched):
         if r.get("want_len", -1) >= 0 and abs(r["body_len"] - r["want_len"]) > 12:
             # (the nonce in the token line has one to a few digits; the planned length is computed with one)
             res.append(("response-body-cut", "client %d received %d body bytes of its own response, which has %d" % (r["c"], r["body_len"], r["want_len"]), rp))
+        want_multi = ["first-" + r["resp_hdr"], "second-" + r["resp_hdr"], "a=" + r["resp_hdr"], "b=" + r["resp_hdr"]]
+        if "multi" in r and (r.get("multi") or []) != want_multi:
+            res.append(("response-header-lines-lost", "client %d: the response carried X-Verif-Multi and Set-Cookie on two lines each, the client received %s" % (r["c"], r.get("multi")), rp))
         if r["resp_hdr"] in seen_resp:
             res.append(("response-delivered-twice", "response %s delivered to clients %d and %d" % (r["resp_hdr"], seen_resp[r["resp_hdr"]], r["c"]), rp))
         seen_resp[r["resp_hdr"]] = r["c"]
